@@ -36,6 +36,16 @@ pub fn escape_eval(m: &str) -> Cow<str> {
     ESC_E.replace_all(m, "eval(escape_assertion(${1}))")
 }
 
+/// Renders one value of a policy line so that `parse_csv_line` reads it back
+/// as a single field: a value containing a comma is written in double quotes.
+pub fn csv_field(value: &str) -> Cow<str> {
+    if value.contains(',') {
+        Cow::Owned(format!("\"{}\"", value))
+    } else {
+        Cow::Borrowed(value)
+    }
+}
+
 pub fn parse_csv_line<S: AsRef<str>>(line: S) -> Option<Vec<String>> {
     let line = line.as_ref().trim();
     if line.is_empty() || line.starts_with('#') {
